@@ -194,17 +194,20 @@ class TwinTol:
     only resolved to ~1e-8 A absolute and a voltage to 1e-8 V plus (series resistance x current uncertainty).
     The bounds below are derived from the first table: R_eff of a row = |Vin-Vout|/Iout."""
 
-    def __init__(self, rows, rel=1e-6, k=6.0):
+    def __init__(self, rows, rel=1e-6, k=6.0, rows2=None):
         n = max(1, len(rows))
         self.rel = rel
         self.dI = k * M.ATOL * n
-        r_sum = 0.0
-        for r in rows.values():
-            io = r[M.COLS["iout"]]
-            vi, vo = r[M.COLS["vin"]], r[M.COLS["vout"]]
-            if M.num(io) and io > 0 and r.get("Type") not in ("LOAD", "CONVERTER", "LINREG"):
-                r_sum += abs(abs(vi) - abs(vo)) / io
-        self.dV = k * M.ATOL + self.dI * r_sum
+        r_best = 0.0
+        for rs_ in (rows, rows2 or {}):
+            r_sum = 0.0
+            for r in rs_.values():
+                io = r[M.COLS["iout"]]
+                vi, vo = r[M.COLS["vin"]], r[M.COLS["vout"]]
+                if M.num(io) and io > 0 and r.get("Type") not in ("LOAD", "CONVERTER", "LINREG"):
+                    r_sum += abs(abs(vi) - abs(vo)) / io
+            r_best = max(r_best, r_sum)  # (a table whose currents are unresolved - 0 A - shows no resistance at all)
+        self.dV = k * M.ATOL + self.dI * r_best
 
     def v(self, a, b):
         return abs(a - b) <= self.rel * max(abs(a), abs(b)) + self.dV
